@@ -33,7 +33,7 @@ REQUIRED_COUNTERS = {"quick": ["round_trips", "value_points_compared", "backtick
 SHARD_TIMEOUT = {"quick": 900, "thorough": 3000}
 
 AVARS = ["x", "y_1", "<state>y", "<p>x", "<t>", "<dt>", "<ret_state>y", "kk", "info", "<p>inf_norm", "nan_seen", "e1", "E"]
-BVARS = ["<cond>c", "flag", "<cond>", "<cond>_0"]       # (<cond> alone is what CodeBuilder.if_ issues first)
+BVARS = ["<cond>c", "flag", "<cond>", "<cond>_0", "done", "notdone"]       # (<cond> alone is what CodeBuilder.if_ issues first)
 ARRS = ["arr", "<state>vec"]
 MATS = ["mat"]
 FUNCS = ["f", "<func>f", "<func>rhs_2", "<builtin>norm_2"]
